@@ -104,6 +104,11 @@ CLAIMS = {
             'and the repaired output must read back without count errors.',
             'Trusted: CrossHair, z3, the OS stubs (in-memory open/glob/tempfile/stdout). Choice enumeration under the tracer; 5-character read buffer.',
             'DESIGN.md §5 C20'),
+    'C03': ('other', 'bounded symbolic execution (CrossHair+z3) of the whole pipeline on real conformant documents with one catalogue fault injected at a symbolic position',
+            'Fault applicability and the expected standard code are derived from the real map node each segment matched; the acknowledgement must reject the set and name the faulted '
+            'segment position, element position and code, and nothing else for faults that do not alter matching; loop repetition beyond the limit is injected adjacent and interleaved with same-ordinal siblings.',
+            'Trusted: CrossHair, z3, the validator callback. Concrete documents, symbolic positions (choice enumeration under the tracer); element-level semantics for symbolic values are C15/C14/C13.',
+            'DESIGN.md §5 C03'),
 }
 
 NOT_YET = 'check not built yet in this round (planned: see DESIGN.md §5)'
